@@ -13,8 +13,18 @@
  * state whose byte i is bits [8i+7:8i] of the register -- so they are written with the primitives of
  * spec/aes_spec.h.  RotWord on a little-endian dword {a0,a1,a2,a3} (a0 = bits 7:0) gives {a1,a2,a3,a0}.
  * models/x86_selftest.c cross-checks the three models against the real instructions on the build CPU.
+ *
+ * Written WITHOUT loops (see models/x86_sse2.c for why); multiplication by {02} and {03} in MixColumns is
+ * xtime(a) and xtime(a) ^ a (FIPS-197 4.2.1), ShiftRows is the index map s'[r + 4c] = s[r + 4((c + r) mod 4)].
  */
 #include <stdint.h>
+/* model text (trusted): no safety obligations are generated for it */
+#pragma CPROVER check push
+#pragma CPROVER check disable "bounds"
+#pragma CPROVER check disable "pointer"
+#pragma CPROVER check disable "pointer-overflow"
+#pragma CPROVER check disable "conversion"
+#pragma CPROVER check disable "div-by-zero"
 #include "aes_spec.h"
 
 typedef long long x86a_v2di __attribute__((vector_size(16)));
@@ -24,32 +34,145 @@ typedef union {
 	uint32_t u32[4];
 } x86a_V;
 
+#ifdef C02_AES_G2
+/*
+ * G2 lock-step variant of AESENC / AESENCLAST (structure proofs only): the specification side ran first and
+ * logged, for its k-th round, the state and round key it was applied to and an ARBITRARY result g2_out[k];
+ * the k-th instruction executed by the implementation must be of the same kind and be applied to the same
+ * state and round key, and returns the same arbitrary result.  Equality under every interpretation of the round.
+ */
+extern uint8_t g2_in[16][32];
+extern uint8_t g2_out[16][16];
+extern int g2_kind[16];		/* 1 = full round, 2 = final round */
+extern int g2_nspec, g2_nimpl;
+#define G2_B(i) (x.u8[i] == g2_in[idx][i] && rk.u8[i] == g2_in[idx][16 + (i)])
+#define G2_SAME (G2_B(0) && G2_B(1) && G2_B(2) && G2_B(3) && G2_B(4) && G2_B(5) && G2_B(6) && G2_B(7) && \
+	G2_B(8) && G2_B(9) && G2_B(10) && G2_B(11) && G2_B(12) && G2_B(13) && G2_B(14) && G2_B(15))
+#define G2_O(i) r.u8[i] = g2_out[idx][i]
+#define G2_STEP(kind) \
+	x86a_V x, rk, r; \
+	int idx = g2_nimpl; \
+	x.d = a; \
+	rk.d = k; \
+	__CPROVER_assert(idx >= 0 && idx < g2_nspec && idx < 16, "G2: the implementation executes no more rounds than FIPS-197 Cipher"); \
+	idx = idx & 15; \
+	__CPROVER_assert(g2_kind[idx] == (kind), "G2: same kind of round (full / final) as FIPS-197 Cipher at this position"); \
+	__CPROVER_assert(G2_SAME, "G2: round applied to the same state and round key as in FIPS-197 Cipher"); \
+	g2_nimpl = g2_nimpl + 1; \
+	G2_O(0); G2_O(1); G2_O(2); G2_O(3); G2_O(4); G2_O(5); G2_O(6); G2_O(7); \
+	G2_O(8); G2_O(9); G2_O(10); G2_O(11); G2_O(12); G2_O(13); G2_O(14); G2_O(15); \
+	return (r.d)
+
 x86a_v2di
 __builtin_ia32_aesenc128(x86a_v2di a, x86a_v2di k)
 {
-	x86a_V s, rk;
-
-	s.d = a;
-	rk.d = k;
-	spec_aes_shift_rows(s.u8);
-	spec_aes_sub_bytes(s.u8);
-	spec_aes_mix_columns(s.u8);
-	spec_aes_add_round_key(s.u8, rk.u8);
-	return (s.d);
+	G2_STEP(1);
 }
 
 x86a_v2di
 __builtin_ia32_aesenclast128(x86a_v2di a, x86a_v2di k)
 {
-	x86a_V s, rk;
+	G2_STEP(2);
+}
+#define __builtin_ia32_aesenc128 x86m_real_aesenc128
+#define __builtin_ia32_aesenclast128 x86m_real_aesenclast128
+#endif /* C02_AES_G2 */
 
-	s.d = a;
+#define X2(a) spec_aes_xtime(a)
+#define X3(a) ((uint8_t)(spec_aes_xtime(a) ^ (a)))
+
+x86a_v2di
+__builtin_ia32_aesenc128(x86a_v2di a, x86a_v2di k)
+{
+	x86a_V x, s, m, rk;
+
+	x.d = a;
 	rk.d = k;
-	spec_aes_shift_rows(s.u8);
-	spec_aes_sub_bytes(s.u8);
-	spec_aes_add_round_key(s.u8, rk.u8);
+	/* ShiftRows, then SubBytes */
+	s.u8[0] = SPEC_AES_SBOX(x.u8[0]);
+	s.u8[1] = SPEC_AES_SBOX(x.u8[5]);
+	s.u8[2] = SPEC_AES_SBOX(x.u8[10]);
+	s.u8[3] = SPEC_AES_SBOX(x.u8[15]);
+	s.u8[4] = SPEC_AES_SBOX(x.u8[4]);
+	s.u8[5] = SPEC_AES_SBOX(x.u8[9]);
+	s.u8[6] = SPEC_AES_SBOX(x.u8[14]);
+	s.u8[7] = SPEC_AES_SBOX(x.u8[3]);
+	s.u8[8] = SPEC_AES_SBOX(x.u8[8]);
+	s.u8[9] = SPEC_AES_SBOX(x.u8[13]);
+	s.u8[10] = SPEC_AES_SBOX(x.u8[2]);
+	s.u8[11] = SPEC_AES_SBOX(x.u8[7]);
+	s.u8[12] = SPEC_AES_SBOX(x.u8[12]);
+	s.u8[13] = SPEC_AES_SBOX(x.u8[1]);
+	s.u8[14] = SPEC_AES_SBOX(x.u8[6]);
+	s.u8[15] = SPEC_AES_SBOX(x.u8[11]);
+	/* MixColumns */
+	m.u8[0] = (uint8_t)(X2(s.u8[0]) ^ X3(s.u8[1]) ^ s.u8[2] ^ s.u8[3]);
+	m.u8[1] = (uint8_t)(s.u8[0] ^ X2(s.u8[1]) ^ X3(s.u8[2]) ^ s.u8[3]);
+	m.u8[2] = (uint8_t)(s.u8[0] ^ s.u8[1] ^ X2(s.u8[2]) ^ X3(s.u8[3]));
+	m.u8[3] = (uint8_t)(X3(s.u8[0]) ^ s.u8[1] ^ s.u8[2] ^ X2(s.u8[3]));
+	m.u8[4] = (uint8_t)(X2(s.u8[4]) ^ X3(s.u8[5]) ^ s.u8[6] ^ s.u8[7]);
+	m.u8[5] = (uint8_t)(s.u8[4] ^ X2(s.u8[5]) ^ X3(s.u8[6]) ^ s.u8[7]);
+	m.u8[6] = (uint8_t)(s.u8[4] ^ s.u8[5] ^ X2(s.u8[6]) ^ X3(s.u8[7]));
+	m.u8[7] = (uint8_t)(X3(s.u8[4]) ^ s.u8[5] ^ s.u8[6] ^ X2(s.u8[7]));
+	m.u8[8] = (uint8_t)(X2(s.u8[8]) ^ X3(s.u8[9]) ^ s.u8[10] ^ s.u8[11]);
+	m.u8[9] = (uint8_t)(s.u8[8] ^ X2(s.u8[9]) ^ X3(s.u8[10]) ^ s.u8[11]);
+	m.u8[10] = (uint8_t)(s.u8[8] ^ s.u8[9] ^ X2(s.u8[10]) ^ X3(s.u8[11]));
+	m.u8[11] = (uint8_t)(X3(s.u8[8]) ^ s.u8[9] ^ s.u8[10] ^ X2(s.u8[11]));
+	m.u8[12] = (uint8_t)(X2(s.u8[12]) ^ X3(s.u8[13]) ^ s.u8[14] ^ s.u8[15]);
+	m.u8[13] = (uint8_t)(s.u8[12] ^ X2(s.u8[13]) ^ X3(s.u8[14]) ^ s.u8[15]);
+	m.u8[14] = (uint8_t)(s.u8[12] ^ s.u8[13] ^ X2(s.u8[14]) ^ X3(s.u8[15]));
+	m.u8[15] = (uint8_t)(X3(s.u8[12]) ^ s.u8[13] ^ s.u8[14] ^ X2(s.u8[15]));
+	/* XOR RoundKey */
+	m.d = m.d ^ rk.d;
+	return (m.d);
+}
+
+x86a_v2di
+__builtin_ia32_aesenclast128(x86a_v2di a, x86a_v2di k)
+{
+	x86a_V x, s, rk;
+
+	x.d = a;
+	rk.d = k;
+	/* ShiftRows, then SubBytes */
+	s.u8[0] = SPEC_AES_SBOX(x.u8[0]);
+	s.u8[1] = SPEC_AES_SBOX(x.u8[5]);
+	s.u8[2] = SPEC_AES_SBOX(x.u8[10]);
+	s.u8[3] = SPEC_AES_SBOX(x.u8[15]);
+	s.u8[4] = SPEC_AES_SBOX(x.u8[4]);
+	s.u8[5] = SPEC_AES_SBOX(x.u8[9]);
+	s.u8[6] = SPEC_AES_SBOX(x.u8[14]);
+	s.u8[7] = SPEC_AES_SBOX(x.u8[3]);
+	s.u8[8] = SPEC_AES_SBOX(x.u8[8]);
+	s.u8[9] = SPEC_AES_SBOX(x.u8[13]);
+	s.u8[10] = SPEC_AES_SBOX(x.u8[2]);
+	s.u8[11] = SPEC_AES_SBOX(x.u8[7]);
+	s.u8[12] = SPEC_AES_SBOX(x.u8[12]);
+	s.u8[13] = SPEC_AES_SBOX(x.u8[1]);
+	s.u8[14] = SPEC_AES_SBOX(x.u8[6]);
+	s.u8[15] = SPEC_AES_SBOX(x.u8[11]);
+	/* XOR RoundKey */
+	s.d = s.d ^ rk.d;
 	return (s.d);
 }
+
+#define KGA_HALF(h) do { \
+	/* X1 = dword 1 (h = 0), X3 = dword 3 (h = 1) */ \
+	uint8_t b0 = SPEC_AES_SBOX(s.u8[8 * (h) + 4]); \
+	uint8_t b1 = SPEC_AES_SBOX(s.u8[8 * (h) + 5]); \
+	uint8_t b2 = SPEC_AES_SBOX(s.u8[8 * (h) + 6]); \
+	uint8_t b3 = SPEC_AES_SBOX(s.u8[8 * (h) + 7]); \
+	/* SubWord(X) */ \
+	r.u8[8 * (h) + 0] = b0; \
+	r.u8[8 * (h) + 1] = b1; \
+	r.u8[8 * (h) + 2] = b2; \
+	r.u8[8 * (h) + 3] = b3; \
+	/* RotWord(SubWord(X)) XOR RCON */ \
+	r.u8[8 * (h) + 4] = (uint8_t)(b1 ^ rcon); \
+	r.u8[8 * (h) + 5] = b2; \
+	r.u8[8 * (h) + 6] = b3; \
+	r.u8[8 * (h) + 7] = b0; \
+} while (0)
 
 x86a_v2di
 __builtin_ia32_aeskeygenassist128(x86a_v2di a, int imm)
@@ -58,23 +181,8 @@ __builtin_ia32_aeskeygenassist128(x86a_v2di a, int imm)
 	uint8_t rcon = (uint8_t)(imm & 0xff);
 
 	s.d = a;
-	for (int h = 0; h < 2; h++) {
-		/* X1 = dword 1 (h = 0), X3 = dword 3 (h = 1) */
-		uint8_t b0 = SPEC_AES_SBOX(s.u8[8 * h + 4]);
-		uint8_t b1 = SPEC_AES_SBOX(s.u8[8 * h + 5]);
-		uint8_t b2 = SPEC_AES_SBOX(s.u8[8 * h + 6]);
-		uint8_t b3 = SPEC_AES_SBOX(s.u8[8 * h + 7]);
-
-		/* SubWord(X) */
-		r.u8[8 * h + 0] = b0;
-		r.u8[8 * h + 1] = b1;
-		r.u8[8 * h + 2] = b2;
-		r.u8[8 * h + 3] = b3;
-		/* RotWord(SubWord(X)) XOR RCON */
-		r.u8[8 * h + 4] = (uint8_t)(b1 ^ rcon);
-		r.u8[8 * h + 5] = b2;
-		r.u8[8 * h + 6] = b3;
-		r.u8[8 * h + 7] = b0;
-	}
+	KGA_HALF(0);
+	KGA_HALF(1);
 	return (r.d);
 }
+#pragma CPROVER check pop
